@@ -1,4 +1,9 @@
-"""Seeded mutants (measured to pass all 189 tests; DESIGN.md Appendix C) and benign refactors, as textual edits."""
+"""Seeded mutants and benign refactors, as textual edits.
+
+Every entry was run against the repository's own test-suite (notes/catalogue-vs-testsuite.json): 20 mutants and all 10 refactors
+pass all 189 tests; the mutants listed in KILLED_BY_SUITE are caught by the suite too and are kept only as detection sanity checks."""
+
+KILLED_BY_SUITE = ['update-forgets-transpose', 'second-odometry-jacobian-wrong-boxplus', 'numerical-step-1e-4', 'numerical-jacobian-halved', 'se2-inverse-angle-plus-2pi-minus', 'landmark-error-ignores-offset-rotation-sign', 'graph-chi2-skips-last-edge']
 
 SE3 = "graphslam/pose/se3.py"
 SE2 = "graphslam/pose/se2.py"
